@@ -11,6 +11,7 @@ decreases when a single level is raised, and a random well-formed plan runs to c
 from __future__ import annotations
 
 import math
+import os
 import random
 import re
 import traceback
@@ -654,6 +655,7 @@ def main(ck: Check):
                 corr_values = {lo, (lo + hi) // 2, hi} if base_name == "defaults" or not quick else {hi}
                 work.append(("sweep", (job, base_name, axis, values, ck.seed, plan_len, corr_values, plan_values)))
         work.append(("joint", (job, ck.seed, 6 if quick else 140, plan_len, 2 if quick else 12)))
+        work.append(("order", (job, ck.seed, 6 if quick else 18)))
 
     results = []
     for args, out in pmap(_dispatch, [(k, a) for k, a in work], ck.budget_s * 0.7):
@@ -673,9 +675,12 @@ def main(ck: Check):
     level_ranges: dict[str, tuple] = {}
     corr_cfgs = []
     samples = []
+    order_builds = 0
     for out in results:
         for f in out["failing"]:
             ck.add_failing(f)
+        ck.broken.extend(out.get("broken", []))
+        order_builds += out.get("order_builds", 0)
         comparisons += out["comparisons"]
         for k, (lo, hi) in out["levels"].items():
             a, b = level_ranges.get(k, (lo, hi))
@@ -850,6 +855,7 @@ def main(ck: Check):
         "damage_field_comparisons": comparisons,
         "damage_figures_read": damage_figures,
         "replacement_pairs_checked": repl_cases,
+        "builds_repeated_in_two_new_interpreters_in_opposite_orders": order_builds,
         "plans_run_to_completion": plans_run,
         "plan_commands": plan_cmds,
         "correspondence_configurations": len(corr_cfgs),
@@ -878,8 +884,71 @@ def main(ck: Check):
                           "success, name uniqueness and plan completion are explored on the real code")
 
 
+def order_unit(job, seed, count):
+    """the same list of configurations built in two NEW interpreters in opposite orders (through the provider and through
+    one in-memory memoizer shared by the list): every built skill set and every damage figure must be the same.  The list
+    is not sorted: high levels come before low ones and neighbours share everything but one or two levels."""
+    import json
+    import subprocess
+    import sys
+    from pathlib import Path
+    rng = random.Random(f"C16:order:{seed}:{job}")
+    base = dict(BASES["upper"])
+    cfgs = []
+    for i in range(count):
+        c = dict(base)
+        c["hexa_mastery_level"] = [30, 0, 10, 1, 17, 0][i % 6]
+        c["combat_orders_level"] = [1, 2, 1, 2, 0, 1][i % 6]
+        c["v_improvements_level"] = [60, 0, 30, 30, 45, 10][i % 6]
+        c["hexa_skill_level"] = rng.choice([0, 1, 12, 30])
+        c["v_skill_level"] = rng.choice([0, 17, 30])
+        cfgs.append(c)
+    cfgs += [dict(cfgs[2]), dict(cfgs[3], combat_orders_level=cfgs[2]["combat_orders_level"])]
+    out = {"failing": [], "configs": [], "comparisons": 0, "levels": {}, "axis": "order", "job": job, "order_builds": 0}
+    script = str(Path(__file__).with_name("c16_order.py"))
+    env = dict(os.environ, PYTHONHASHSEED="0")
+    procs = [subprocess.Popen([sys.executable, script], stdin=subprocess.PIPE, stdout=subprocess.PIPE,
+                              stderr=subprocess.PIPE, text=True, env=env) for _ in range(2)]
+    res = []
+    for p, lst in zip(procs, (cfgs, cfgs[::-1])):
+        try:
+            o, _e = p.communicate(json.dumps({"job": job, "cfgs": lst}), timeout=400)
+            res.append(json.loads(o) if p.returncode == 0 else None)
+        except Exception:  # noqa: BLE001
+            p.kill()
+            res.append(None)
+    if res[0] is None or res[1] is None:
+        out["broken"] = [{"kind": "harness", "part": "C16 order independence", "job": job,
+                          "detail": "a helper interpreter gave no answer"}]
+        return out
+    back = res[1][::-1]
+    for cfg, a, b in zip(cfgs, res[0], back):
+        out["order_builds"] += 2
+        for path in ("provider", "memoizer"):
+            x, y = a[path], b[path]
+            if x == y:
+                continue
+            detail = {}
+            if "raised" in x or "raised" in y:
+                detail = {"in_list_order": x.get("raised", "built"), "in_reverse_order": y.get("raised", "built")}
+            elif x["names"] != y["names"]:
+                detail = {"skills_only_in_list_order": sorted(set(x["names"]) - set(y["names"])),
+                          "skills_only_in_reverse_order": sorted(set(y["names"]) - set(x["names"]))}
+            else:
+                for nm in x["damage"]:
+                    d = {k: [x["damage"][nm][k], y["damage"][nm].get(k)] for k in x["damage"][nm]
+                         if x["damage"][nm][k] != y["damage"][nm].get(k)}
+                    if d:
+                        detail = {"skill": nm, "figure: [in list order, in reverse order]": d}
+                        break
+            out["failing"].append({"kind": "build-depends-on-the-configurations-built-before-it", "job": job, "config": cfg,
+                                   "built_through": path, "list_of_configurations": cfgs, **detail})
+            return out
+    return out
+
+
 def _dispatch(kind, args):
-    return sweep_unit(*args) if kind == "sweep" else joint_unit(*args)
+    return sweep_unit(*args) if kind == "sweep" else order_unit(*args) if kind == "order" else joint_unit(*args)
 
 
 if __name__ == "__main__":
